@@ -42,6 +42,11 @@ OPS = [
     (r'when_true \} else \{ when_false', 'when_false } else { when_true'), (r'\(when_none\.clone', '(when_some.clone'), (r'Literal::String\(first\)', 'Literal::String(second.clone())'),
     (r'\.and_then\(char::from_u32\)', '.map(|c| char::from_u32(c).unwrap_or(\'?\'))'), (r'string\.scalar\(index\)', 'string.scalar(index + 1)'), (r'split_at_scalar\(index\)', 'split_at_scalar(index + 1)'),
     (r'Self::one\(continuation, first\)', 'Self::one(continuation, second.clone())'), (r'=> Self::Closed', '=> Self::Other'), (r'ErrorKind::NotConnected', 'ErrorKind::NotFound'),
+    (r'HostContinuation::force\(when_success\)', 'HostContinuation::force(when_error)'), (r'io_error\(when_error,', 'io_error(when_success,'),
+    (r'force\(when_eof\)', 'force(when_line)'), (r'Ok\(\(0, _\)\)', 'Ok((1, _))'), (r"b'\\n'", "b'\\r'"), (r'one\(when_line,', 'one(when_eof,'),
+    (r'WriterHandle::STDOUT \| WriterHandle::STDERR', 'WriterHandle::STDOUT'), (r'\.create_writer\(', '.append_writer('), (r'\.append_writer\(', '.create_writer('),
+    (r'HostValue::Reader\(handle\)', 'HostValue::Reader(ReaderHandle::STDIN)'), (r'operation\(output\)', 'operation(host.writer(handle)?)'), (r'operation\(input\)', 'operation(host.reader(handle)?)'),
+    (r'host\.close_writer\(\*writer\)', 'host.close_writer(WriterHandle::STDERR)'), (r'one\(when_success, capability\)', 'one(when_error, capability)'),
     (r'\*\$second', '*$first'), (r'\$first\.', '$second.'),
     (r'IntegerLiteral::\$variant\(result\)', 'IntegerLiteral::$variant(*$first)'),
 ]
@@ -145,7 +150,16 @@ def run_kani_unit(uname, max_mutants=60):
     only = ucfg.get('mutate_functions')
     if only:
         muts = [m for m in muts if m['fn'] in only]
-    muts = muts[:max_mutants]
+    cap = int(os.environ.get('MUT_PER_FN', '0'))
+    if cap:
+        seen_fn = {}
+        kept = []
+        for m in muts:
+            seen_fn[m['fn']] = seen_fn.get(m['fn'], 0) + 1
+            if seen_fn[m['fn']] <= cap:
+                kept.append(m)
+        muts = kept
+    muts = muts[:int(os.environ.get('MUT_MAX', max_mutants))]
     tdir = os.path.join(VERIF, 'build', 'kani-target', ucfg.get('target_key', uname))
     flags = ucfg.get('flags', [])
     env = dict(os.environ, CARGO_NET_OFFLINE='true', CARGO_TERM_COLOR='never', RUST_BACKTRACE='0')
@@ -155,7 +169,7 @@ def run_kani_unit(uname, max_mutants=60):
         open(m['file'], 'w').write(m['text'])
         jpath = os.path.join(OUT, f'{uname}_m{i}.json')
         os.makedirs(OUT, exist_ok=True)
-        cmd = ['cargo', 'kani'] + flags + ['-Z', 'unstable-options', '--target-dir', tdir, '-j', '14', '--output-format', 'terse', '--harness-timeout', '120',
+        cmd = ['cargo', 'kani'] + flags + ['-Z', 'unstable-options', '--target-dir', tdir, '-j', '14', '--output-format', 'terse', '--harness-timeout', os.environ.get('MUT_HARNESS_TIMEOUT', '120'),
                '--export-json', jpath, '--exact']
         for h in declared:
             cmd += ['--harness', h]
